@@ -11,7 +11,9 @@
 package fetcher
 
 import (
+	"bytes"
 	"context"
+	"sort"
 
 	"github.com/sourcenetwork/corekv"
 
@@ -19,6 +21,7 @@ import (
 	"github.com/sourcenetwork/defradb/errors"
 	"github.com/sourcenetwork/defradb/internal/connor"
 	"github.com/sourcenetwork/defradb/internal/db/id"
+	"github.com/sourcenetwork/defradb/internal/encoding"
 	"github.com/sourcenetwork/defradb/internal/keys"
 	"github.com/sourcenetwork/defradb/internal/planner/filter"
 	"github.com/sourcenetwork/defradb/internal/planner/mapper"
@@ -239,6 +242,8 @@ type inIndexIterator struct {
 	fieldConditions []fieldFilterCond
 	matchers        []valueMatcher
 	isUnique        bool
+	// reverse is true if the entries of every value have to be iterated in reverse order
+	reverse bool
 }
 
 var _ indexIterator = (*inIndexIterator)(nil)
@@ -287,7 +292,8 @@ func (iter *inIndexIterator) createIteratorForNextValue() error {
 			Descending: iter.fetcher.indexDesc.Fields[0].Descending,
 		}}
 
-		iter.indexIterator = iter.fetcher.newPrefixBaseMatchIterator(indexKey, iter.matchers, iter.fetcher.execInfo)
+		iter.indexIterator = iter.fetcher.newPrefixBaseMatchIterator(indexKey, iter.matchers, iter.fetcher.execInfo).
+			Reverse(iter.reverse)
 	}
 
 	return nil
@@ -320,6 +326,11 @@ func (iter *inIndexIterator) Next() (indexIterResult, error) {
 }
 
 func (iter *inIndexIterator) Close() error {
+	if iter.hasIterator && iter.indexIterator != nil {
+		// the iterator of the current value is still open (e.g. the request stopped early)
+		iter.hasIterator = false
+		return iter.indexIterator.Close()
+	}
 	return nil
 }
 
@@ -444,9 +455,24 @@ func (f *indexFetcher) newInIndexIterator(
 	fieldConditions []fieldFilterCond,
 	matchers []valueMatcher,
 ) (*inIndexIterator, error) {
-	inValues, err := client.ToArrayOfNormalValues(fieldConditions[0].val)
+	allValues, err := client.ToArrayOfNormalValues(fieldConditions[0].val)
 	if err != nil {
 		return nil, NewErrInvalidInOperatorValue(err)
+	}
+
+	// every value is looked up on its own, a repeated value must not yield its documents again
+	inValues := make([]client.NormalValue, 0, len(allValues))
+	for _, val := range allValues {
+		isRepeated := false
+		for _, seen := range inValues {
+			if seen.Equal(val) {
+				isRepeated = true
+				break
+			}
+		}
+		if !isRepeated {
+			inValues = append(inValues, val)
+		}
 	}
 
 	// iterators for _in filter already iterate over keys with first field value
@@ -457,12 +483,30 @@ func (f *indexFetcher) newInIndexIterator(
 
 	isUnique := isUniqueFetchByFullKey(&f.indexDesc, fieldConditions)
 
+	// If the planner relies on the index for the requested ordering, the values have to be visited in
+	// the order of the index (not in the order they are listed in the filter).
+	ordered, reverse := CanBeOrderedByIndex(f.ordering, f.indexDesc, f.mapping)
+	if ordered {
+		descending := f.indexDesc.Fields[0].Descending
+		sort.SliceStable(inValues, func(i, j int) bool {
+			cmp := bytes.Compare(
+				encoding.EncodeFieldValue(nil, inValues[i], descending),
+				encoding.EncodeFieldValue(nil, inValues[j], descending),
+			)
+			if reverse {
+				return cmp > 0
+			}
+			return cmp < 0
+		})
+	}
+
 	inIter := &inIndexIterator{
 		inValues:        inValues,
 		fetcher:         f,
 		fieldConditions: fieldConditions,
 		matchers:        matchers,
 		isUnique:        isUnique,
+		reverse:         ordered && reverse,
 	}
 
 	err = inIter.createIteratorForNextValue()
